@@ -77,6 +77,9 @@ fn gen_cases(mode: &str, tier: &str, seed: u64) -> Vec<Case> {
                     c.stream = ls.concat();
                     c.chunks = vec![c.stream.clone()];
                     c.kind = "corrupt-line";
+                    // regex matching is a parameter of the model, supplied for the paths the generator knows: a corrupted line can
+                    // name a path it does not know, so corrupted cases run without --path-regex (found by the thorough tier)
+                    c.opts.regexes.clear();
                     out.push(c);
                 }
             }
